@@ -22,7 +22,7 @@ RULE = ("(a) random strings over a weighted alphabet (Jaqal tokens and character
 ASSUMPTIONS = ["termination restated as a step budget of 2e5 + 2e3*len(text) line events inside jaqalpaq modules per call",
                "texts declaring registers larger than 6 qubits, or whose loops unroll to more than 20000 statement executions, are parsed but not executed (resource use proportional to the program, not termination)",
                "ImportError is accepted only when the program names a pulse module and pulses are auto-loaded"]
-TIERS = {"quick": {"shards": 8, "budget_s": 200}, "thorough": {"shards": 16, "budget_s": 480}}
+TIERS = {"quick": {"shards": 8, "budget_s": 400}, "thorough": {"shards": 16, "budget_s": 480}}
 REQUIRE = {"entry:runstr": 1500, "import-layout-histories": 30, "alternating-twin-parses": 400, "class:deep-nesting-from-deep-stack": 40, "hang-probes": 15, "calls": 20000, "class:random": 1000, "class:truncation": 2000, "class:mutant": 2000, "class:template": 200,
            "outcome:JaqalParseError": 2000, "outcome:JaqalError": 500, "outcome:ok": 500, "position-checked": 2000,
            "histories": 8, "history-steps": 300, "fresh-single-text-runs": 8, "illegal-character-texts": 200,
